@@ -109,22 +109,60 @@ theorem backup_data (l : List (Nat × FileSt)) : ∀ (acc : List (Nat × FileSt)
       · simp only [List.mem_singleton] at hx
         rw [hx]; exact ha.1 z hz
 
+/-- the world `Backup` writes the copy into: a stale merge directory next to `dest` is removed first -/
+def backupWorld (s : St) (db : DB) (dest : String) : World :=
+  if mergeDirName dest = db.dir then s.world else s.world.remove (mergeDirName dest)
+
 /-- `Backup`, whatever `dest` held before: the copy's data files and hint file are exactly the
     source's (flushed); the other attributes of an existing `dest` are kept -/
 theorem backup_eq' (s : St) (db : DB) (d : DirSt) (dest : String) (hdb : s.db = some db)
     (hd : s.world.get db.dir = some d) :
-    backup s dest = (⟨s.world.set dest ⟨syncAll d.data, d.hint, ((s.world.get dest).getD DirSt.empty).marker,
+    backup s dest = (⟨(backupWorld s db dest).set dest ⟨syncAll d.data, d.hint, ((s.world.get dest).getD DirSt.empty).marker,
       ((s.world.get dest).getD DirSt.empty).locked⟩, s.db⟩, .ok) := by
-  unfold backup withDB
+  unfold backup withDB backupWorld
   rw [hdb]
   simp only [dirOf, hd, Option.getD_some]
   rfl
 
+/-- every directory other than the stale merge directory is where it was -/
+theorem backupWorld_get (s : St) (db : DB) (dest n : String) (h : n ≠ mergeDirName dest) :
+    (backupWorld s db dest).get n = s.world.get n := by
+  unfold backupWorld
+  split
+  · rfl
+  · exact get_remove_ne _ _ _ h
+
+/-- `Backup` into a directory that does not exist yet -/
 theorem backup_eq (s : St) (db : DB) (d : DirSt) (dest : String) (hdb : s.db = some db)
     (hd : s.world.get db.dir = some d) (hfresh : s.world.get dest = none) (_hasc : AscF d.data) :
-    backup s dest = (⟨s.world.set dest ⟨syncAll d.data, d.hint, none, false⟩, s.db⟩, .ok) := by
+    backup s dest = (⟨(backupWorld s db dest).set dest ⟨syncAll d.data, d.hint, none, false⟩, s.db⟩, .ok) := by
   rw [backup_eq' s db d dest hdb hd, hfresh]
   rfl
+
+/-- the stale merge directory is gone — unless it is the data directory itself, which is never touched -/
+theorem backupWorld_get_mname (s : St) (db : DB) (dest : String) :
+    (backupWorld s db dest).get (mergeDirName dest) =
+      if mergeDirName dest = db.dir then s.world.get db.dir else none := by
+  unfold backupWorld
+  split
+  · rename_i h; rw [h]
+  · exact get_remove_self _ _
+
+/-- the data directory is never touched -/
+theorem backupWorld_get_dir (s : St) (db : DB) (dest : String) :
+    (backupWorld s db dest).get db.dir = s.world.get db.dir := by
+  by_cases h : mergeDirName dest = db.dir
+  · unfold backupWorld; rw [if_pos h]
+  · exact backupWorld_get s db dest db.dir (fun e => h e.symm)
+
+/-- nothing adoptable next to `dest` after the removal (by construction when the guard does not fire) -/
+theorem backupWorld_plan (s : St) (db : DB) (dest : String)
+    (hplan : mergeDirName dest = db.dir → plan s.world dest = none) :
+    plan (backupWorld s db dest) dest = none := by
+  by_cases h : mergeDirName dest = db.dir
+  · unfold backupWorld; rw [if_pos h]; exact hplan h
+  · unfold plan
+    rw [backupWorld_get_mname, if_neg h]
 
 theorem plan_set (w : World) (n dir : String) (x : DirSt)
     (h : n ≠ mergeDirName dir ∨ ∃ d, w.get n = some d ∧ x.marker = d.marker) :
